@@ -15,8 +15,11 @@
 (*    records after all files by the streaming one), with the OS resolving *)
 (*    '.' and '..' physically while walking;                               *)
 (*  - declarative: the tree denoted by the lexically normalised names.     *)
-(* An entry is [name, mode, data]: name a byte sequence, mode the Unix     *)
-(* mode or -1, data an opaque content token.                               *)
+(* An entry is [name, cname, mode, data]: name = the name in the local     *)
+(* header (what a front-to-back reader sees while writing files), cname =  *)
+(* the name in the central directory (what the seekable extractor uses for *)
+(* everything, and the streaming one for the permission phase); a producer *)
+(* may make them differ.  mode = Unix mode or -1, data = content token.    *)
 (***************************************************************************)
 EXTENDS PathSan, FiniteSets, TLC
 CONSTANTS BUG,          \* "none" or a known-bad variant (spec mutants)
@@ -100,16 +103,19 @@ StreamFiles(fs, es, i) ==
         IF w.res = "unsafe" THEN [res |-> "err", fs |-> w.fs, clean |-> TRUE]
         ELSE IF w.res = "fail" THEN [res |-> "err", fs |-> w.fs, clean |-> FALSE]
         ELSE StreamFiles(w.fs, es, i + 1)
+\* the permission phase works from the central records: their names are validated again
+Central(e) == [e EXCEPT !.name = e.cname]
 RECURSIVE StreamMeta(_, _, _)
 StreamMeta(fs, es, i) ==
    IF i > Len(es) THEN [res |-> "ok", fs |-> fs, clean |-> TRUE]
-   ELSE IF ~SafeName(es[i].name) THEN [res |-> "err", fs |-> fs, clean |-> TRUE]
-   ELSE LET c == Chmod(fs, es[i]) IN
+   ELSE IF ~SafeName(es[i].cname) /\ BUG # "meta_unchecked" THEN [res |-> "err", fs |-> fs, clean |-> TRUE]
+   ELSE LET c == Chmod(fs, Central(es[i])) IN
         IF c.ok THEN StreamMeta(c.fs, es, i + 1) ELSE [res |-> "err", fs |-> c.fs, clean |-> FALSE]
 Run(fs0, es, via) ==
-   IF via = "seek" THEN SeekLoop(fs0, es, 1)
+   IF via = "seek" THEN SeekLoop(fs0, [i \in 1..Len(es) |-> Central(es[i])], 1)
    ELSE LET f == StreamFiles(fs0, es, 1) IN
         IF f.res = "ok" THEN (IF BUG = "no_modes" THEN f ELSE StreamMeta(f.fs, es, 1)) ELSE f
+Diverged(es) == \E i \in 1..Len(es) : es[i].cname # es[i].name
 
 \* ---- declarative meaning of a list of safe, mutually consistent names
 Norm(n) == Resolve(Split(n), <<>>).st                                  \* lexical normal form below the target
@@ -124,7 +130,7 @@ Visited(cs, st) ==
 IsDirEntry(e) == EndsWithSlash(e.name)
 FinalPath(e) == Norm(e.name)
 DirsOf(e) == IF IsDirEntry(e) THEN Visited(Split(e.name), <<>>) ELSE Visited(Front(e.name), <<>>)
-AllSafe(es) == \A i \in 1..Len(es) : Enclosed(es[i].name) # <<>>
+AllSafe(es) == \A i \in 1..Len(es) : Enclosed(es[i].name) # <<>> /\ Enclosed(es[i].cname) # <<>>
 Consistent(es) ==
    /\ \A i \in 1..Len(es) : /\ FinalPath(es[i]) # <<>>
                             /\ (~IsDirEntry(es[i]) => FileNameOk(es[i].name))
